@@ -240,7 +240,10 @@ def _run_one(case):
     t0 = time.time()
     signal.setitimer(signal.ITIMER_REAL, hz)
     try:
-        res = mod.run_case(case)
+        import warnings
+        with warnings.catch_warnings():
+            warnings.simplefilter('ignore')
+            res = mod.run_case(case)
     except CaseTimeout:
         res = {'status': 'cap', 'violations': []}
     except Exception as exc:  # harness-level escape: the check did not classify it -> violation
@@ -411,8 +414,9 @@ class Report:
             'wall_s': round(time.time() - self.t0, 2), 'violations': new_count,
             'gnpy_commit': repo_commit(),
         }
-        os.makedirs(os.path.join(VERIF, 'evidence'), exist_ok=True)
-        with open(os.path.join(VERIF, 'evidence', f'{self.pid}.json'), 'w') as f:
+        evdir = os.environ.get('VERIF_EVIDENCE_DIR') or os.path.join(VERIF, 'evidence')
+        os.makedirs(evdir, exist_ok=True)
+        with open(os.path.join(evdir, f'{self.pid}.json'), 'w') as f:
             json.dump(ev, f, indent=1, default=_default)
             f.write('\n')
         summary = {k: cov[k] for k in ('evaluations', 'states', 'transitions', 'traces_validated_against_impl',
@@ -429,7 +433,7 @@ class Report:
 
 
 def write_replay(pid, modname, v):
-    d = os.path.join(VERIF, 'replays', pid)
+    d = os.path.join(os.environ.get('VERIF_REPLAY_DIR') or os.path.join(VERIF, 'replays'), pid)
     os.makedirs(d, exist_ok=True)
     body = {'property': pid, 'module': modname, 'fingerprint': v['fingerprint'], 'what': v.get('what'),
             'case': v.get('case'), 'history': v.get('history'), 'observed': v.get('observed'),
